@@ -490,7 +490,7 @@ def _content_of_len(kind, L):
 def length_forms(L):
     """-> (canonical length octets, [non-minimal / reserved forms])"""
     canon = ref_len(L)
-    bad = []
+    bad = [b"\x80"]               # the indefinite form, with the content (and whatever follows) right behind it
     for n in (1, 2, 3, 4):
         if L < (1 << (8 * n)):
             f = bytes([0x80 | n]) + L.to_bytes(n, "big")
@@ -516,8 +516,9 @@ def der_lenform_worker(shards):
                 canon, bad = length_forms(L)
                 # as a top-level element, and as a member of an outer SEQUENCE (inner length form)
                 for nested in (False, True):
-                    for form, must_accept in [(canon, True)] + [(b, False) for b in bad]:
-                        tlv = bytes([tag]) + form + content
+                    forms = [(canon, True, b"")] + [(b, False, b"") for b in bad] + [(b"\x80", False, b"\x00\x00")]
+                    for form, must_accept, eoc in forms:
+                        tlv = bytes([tag]) + form + content + eoc
                         x = tlv if not nested else ref_tlv_enc(0x30, b"\x02\x01\x07" + tlv)
                         for strict in (False, True):
                             acc.count("evaluations")
@@ -535,7 +536,7 @@ def der_lenform_worker(shards):
                             acc.seen("classes", ("lenform", kind, nested, len(form), must_accept, res))
                             if res == "accept" and not must_accept:
                                 acc.violation("C13/der-strict/nonminimal-length-accepted/%s" % ("member" if nested else kind),
-                                              "%s with %d content octets and the non-minimal length octets %s was accepted (strict=%s)"
+                                              "%s with %d content octets and the non-minimal / indefinite length octets %s was accepted (strict=%s)"
                                               % ("member of a SEQUENCE" if nested else kind, L, form.hex(), strict),
                                               {"part": "lenform", "L": L}, size=L)
                             if res != "accept" and must_accept:
